@@ -15,6 +15,10 @@ EXTENDS FoF, TLC
 CONSTANTS K2, K3, K4, K5,   \* Kn = largest number of chunks in a cover of n points (0: n not explored)
           DeepN, DeepK,    \* for n = DeepN also the covers of KFor(n)+1 .. DeepK chunks of at most two points,
           DeepMinLinks,    \* ... for the graphs with at least DeepMinLinks links
+          OrdK, OrdS, OrdP, \* merge-order family: up to OrdK chunk events, each touching at most OrdS earlier
+                           \* provisional labels, at most OrdP points (OrdK = 0: off)
+          OrdFull,         \* FALSE: only the events "new point", "new point attached to one earlier label" and
+                           \* "merge of earlier labels"; TRUE: also re-visits of one label and merges that add a point
           Mode             \* "machine" or "cases"
 VARIABLES c, st, exp
 vars == <<c, st, exp>>
@@ -33,13 +37,18 @@ ProjE(e) == [pc |-> "spec", ig |-> e.ingroup, mult |-> e.mult, first |-> e.first
 
 Init == c = Root /\ st = None /\ exp = NoExp
 
+(* root -> "pre" (one per graph, no law attached) -> "graph": the laws of a graph are then evaluated by the *)
+(* worker that takes the pre-state, not all of them by the single worker that expands the root             *)
 RootStep ==
   /\ c.kind = "root"
-  /\ \E n \in Ns : \E adj \in SUBSET AllPairs(n) :
-        /\ c' = [kind |-> "graph", n |-> n, adj |-> adj]
-        /\ exp' = IF Mode = "cases"
-                  THEN [pc |-> "graph", g |-> Proj(RunGroups(n, Nbrs(n, adj))), e |-> ProjE(Expected(n, adj))]
-                  ELSE NoExp
+  /\ \E n \in Ns : \E adj \in SUBSET AllPairs(n) : c' = [kind |-> "pre", n |-> n, adj |-> adj]
+  /\ st' = None /\ exp' = NoExp
+GraphStep ==
+  /\ c.kind = "pre"
+  /\ c' = [c EXCEPT !.kind = "graph"]
+  /\ exp' = IF Mode = "cases"
+            THEN [pc |-> "graph", g |-> Proj(RunGroups(c.n, Nbrs(c.n, c.adj))), e |-> ProjE(Expected(c.n, c.adj))]
+            ELSE NoExp
   /\ st' = None
 
 (* GroupsAlgo on the whole graph *)
@@ -55,15 +64,16 @@ GStepAct ==
   /\ st' = GStep(st, Nbrs(c.n, c.adj))
   /\ UNCHANGED <<c, exp>>
 
-CoverCase(cover) ==
-  /\ CoverOK(c.n, c.adj, cover) = TRUE   \* "= TRUE": evaluated as a value, not enumerated witness by witness
-  /\ c' = [kind |-> "case", n |-> c.n, adj |-> c.adj, cover |-> cover,
-           lg |-> IF Mode = "machine" THEN LocalGroupsOf(c.adj, cover) ELSE <<>>]
-  /\ st' = IF Mode = "machine" THEN MInit(c.n, cover) ELSE None
+CaseOf(n, adj, cover) ==
+  /\ CoverOK(n, adj, cover) = TRUE   \* "= TRUE": evaluated as a value, not enumerated witness by witness
+  /\ c' = [kind |-> "case", n |-> n, adj |-> adj, cover |-> cover,
+           lg |-> IF Mode = "machine" THEN LocalGroupsOf(adj, cover) ELSE <<>>]
+  /\ st' = IF Mode = "machine" THEN MInit(n, cover) ELSE None
   /\ exp' = IF Mode = "cases"
-            THEN LET raw == RunMergeRaw(c.n, c.adj, cover) IN
-                 [pc |-> "case", raw |-> Proj(raw), fin |-> Proj(RunMergeFrom(raw, c.n, c.adj, cover))]
+            THEN LET raw == RunMergeRaw(n, adj, cover) IN
+                 [pc |-> "case", raw |-> Proj(raw), fin |-> Proj(RunMergeFrom(raw, n, adj, cover))]
             ELSE NoExp
+CoverCase(cover) == CaseOf(c.n, c.adj, cover)
 
 CoverStep ==
   /\ c.kind = "graph"
@@ -78,6 +88,43 @@ DeepStep ==
   /\ \E k \in (KFor(c.n) + 1) .. DeepK : \E cv \in [1 .. k -> {ch \in Chunks(c.n) : Cardinality(ch) <= 2}] :
         CoverCase([t \in 1 .. k |-> SortedSeq(cv[t])])
 
+(* ---- merge orders --------------------------------------------------------------------------------- *)
+(* What MergeAlgo does depends only on the ORDER of the chunk events: which earlier provisional labels the  *)
+(* members of the k-th (chunk, local group) already carry and whether it has a member without a label.     *)
+(* This family enumerates those histories directly: event k = [S |-> set of earlier labels that own a      *)
+(* point, new |-> a fresh point], every such sequence up to OrdK events.  A history is made concrete as    *)
+(* the (graph, cover) that produces it: one point per "new" event (numbered in order of creation, or in    *)
+(* the reverse order), chunk k = the points owning the labels in S plus the fresh point, linked in a row   *)
+(* so that the chunk is one local group.  The case then runs like every other (graph, cover).              *)
+OrdEvents(ev) ==
+  LET k == Len(ev)
+      own == {l \in 0 .. (k - 1) : ev[l + 1].new}
+      np == Cardinality(own)
+  IN {[S |-> S, new |-> nw] : S \in {T \in SUBSET own : Cardinality(T) <= OrdS}, nw \in BOOLEAN}
+       \ ({[S |-> {}, new |-> FALSE]}
+          \cup (IF np >= OrdP THEN {[S |-> S, new |-> TRUE] : S \in SUBSET own} ELSE {})
+          \cup (IF OrdFull THEN {} ELSE {[S |-> {l}, new |-> FALSE] : l \in own}
+                                        \cup {[S |-> S, new |-> TRUE] : S \in {T \in SUBSET own : Cardinality(T) >= 2}}))
+OrdN(ev) == Cardinality({l \in 1 .. Len(ev) : ev[l].new})
+OrdPt(ev, l, flip) == LET p == Cardinality({m \in 1 .. l : ev[m].new}) IN IF flip THEN (OrdN(ev) - 1) - p ELSE p
+OrdCover(ev, flip) ==
+  [k \in 1 .. Len(ev) |-> SortedSeq({OrdPt(ev, l, flip) : l \in ev[k].S}
+                                      \cup (IF ev[k].new THEN {OrdPt(ev, k - 1, flip)} ELSE {}))]
+OrdAdj(cover) == UNION {{<<cover[k][t], cover[k][t + 1]>> : t \in 1 .. (Len(cover[k]) - 1)} : k \in 1 .. Len(cover)}
+
+OrdStart ==
+  /\ c.kind = "root" /\ OrdK > 0
+  /\ c' = [kind |-> "ord", ev |-> <<[S |-> {}, new |-> TRUE]>>]
+  /\ st' = None /\ exp' = NoExp
+OrdExtend ==
+  /\ c.kind = "ord" /\ Len(c.ev) < OrdK
+  /\ \E e \in OrdEvents(c.ev) : c' = [c EXCEPT !.ev = Append(@, e)]
+  /\ st' = None /\ exp' = NoExp
+OrdCase ==
+  /\ c.kind = "ord" /\ OrdN(c.ev) >= 2
+  /\ \E flip \in BOOLEAN :
+        LET cover == OrdCover(c.ev, flip) IN CaseOf(OrdN(c.ev), OrdAdj(cover), cover)
+
 MStepAct ==
   /\ Mode = "machine"
   /\ c.kind = "case"
@@ -89,9 +136,10 @@ MStepAct ==
 Finished ==
   /\ \/ c.kind = "gcase" /\ st.pc = "done"
      \/ c.kind = "case" /\ (Mode = "cases" \/ MTerminal(st))
+     \/ c.kind = "ord"
   /\ UNCHANGED vars
 
-Next == RootStep \/ GStart \/ GStepAct \/ CoverStep \/ DeepStep \/ MStepAct \/ Finished
+Next == RootStep \/ GraphStep \/ GStart \/ GStepAct \/ CoverStep \/ DeepStep \/ OrdStart \/ OrdExtend \/ OrdCase \/ MStepAct \/ Finished
 
 IsGraph == c.kind = "graph"
 IsG == c.kind = "gcase"
